@@ -506,16 +506,8 @@ func (db *DB) InsertRows(ctx context.Context, rows interface{}, chunkSize int) e
 		rowsData[i] = val.Index(i).Interface()
 	}
 
-	var tx *sql.Tx
-	if !db.HasTx(ctx) {
-		var err error
-		ctx, tx, err = db.WithTx(ctx)
-		if err != nil {
-			return err
-		}
-		defer tx.Rollback()
-	}
-
+	// Check every chunk before sending any, so that a call that does not comply leaves the database untouched.
+	var queries []*BatchInsertQuery
 	for j := 0; j < len(rowsData); j += chunkSize {
 		sliceLength := chunkSize
 		if len(rowsData) < j+sliceLength {
@@ -534,8 +526,21 @@ func (db *DB) InsertRows(ctx context.Context, rows interface{}, chunkSize int) e
 				return err
 			}
 		}
-		_, err = db.execWithTrace(ctx, query, "InsertRows")
+		queries = append(queries, query)
+	}
+
+	var tx *sql.Tx
+	if !db.HasTx(ctx) {
+		var err error
+		ctx, tx, err = db.WithTx(ctx)
 		if err != nil {
+			return err
+		}
+		defer tx.Rollback()
+	}
+
+	for _, query := range queries {
+		if _, err := db.execWithTrace(ctx, query, "InsertRows"); err != nil {
 			return err
 		}
 	}
@@ -568,16 +573,8 @@ func (db *DB) UpsertRows(ctx context.Context, rows interface{}, chunkSize int) e
 		rowsData[i] = val.Index(i).Interface()
 	}
 
-	var tx *sql.Tx
-	if !db.HasTx(ctx) {
-		var err error
-		ctx, tx, err = db.WithTx(ctx)
-		if err != nil {
-			return err
-		}
-		defer tx.Rollback()
-	}
-
+	// Check every chunk before sending any, so that a call that does not comply leaves the database untouched.
+	var queries []*BatchUpsertQuery
 	for j := 0; j < len(rowsData); j += chunkSize {
 		sliceLength := chunkSize
 		if len(rowsData) < j+sliceLength {
@@ -596,8 +593,21 @@ func (db *DB) UpsertRows(ctx context.Context, rows interface{}, chunkSize int) e
 				return err
 			}
 		}
-		_, err = db.execWithTrace(ctx, query, "UpsertRows")
+		queries = append(queries, query)
+	}
+
+	var tx *sql.Tx
+	if !db.HasTx(ctx) {
+		var err error
+		ctx, tx, err = db.WithTx(ctx)
 		if err != nil {
+			return err
+		}
+		defer tx.Rollback()
+	}
+
+	for _, query := range queries {
+		if _, err := db.execWithTrace(ctx, query, "UpsertRows"); err != nil {
 			return err
 		}
 	}
